@@ -86,24 +86,42 @@ def runNumber (d : Doc) (c : NumCfg) (after : Nat → Nat → Bool) : List Count
 (same type and name) and what an explicit `count` attribute trivially satisfies -/
 def CountConsistent (c : NumCfg) : Prop := ∀ a b, c.countAt a b = true → c.countAt b = c.countAt a
 
-/-- the list §7.7 defines for node `n` under instruction `c`, as the code prints it: for `level="any"` a zero
-count prints nothing (XSLT 1.0 reads `[0]`, XSLT 2.0 made the empty result normative: `number_spec_any_zero_counterexample`) -/
-def printedSpec (d : Doc) (c : NumCfg) (n : Nat) : List Nat :=
+/-- the list §7.7 defines for node `n` under instruction `c`, as the code prints it.  `zeroPrintsNothing` = the
+`level="any"` branch of `getCountString` guards `formatNumberList` with `if (theNumber != 0)`: then a zero count
+prints nothing, where the XSLT 1.0 text constructs the list `[0]` (XSLT 2.0 §12.2 made the empty result normative;
+`number_spec_any_zero_counterexample`, `proposed/C17-any-zero.diff`).  Without the guard it is the §7.7 list. -/
+def printedSpecZ (zeroPrintsNothing : Bool) (d : Doc) (c : NumCfg) (n : Nat) : List Nat :=
   match c.level with
-  | .any => (numberSpec d .any (c.countAt n) c.fromP n).filter (· ≠ 0)
+  | .any => if zeroPrintsNothing then (numberSpec d .any (c.countAt n) c.fromP n).filter (· ≠ 0)
+            else numberSpec d .any (c.countAt n) c.fromP n
   | l => numberSpec d l (c.countAt n) c.fromP n
 
-/-- **number_spec** (`_partial` only by the zero list of `level="any"`, see `printedSpec`).
-For every well-formed document, every instruction — any level, any `count` (explicit or default), with or
-without `from` — every history of context nodes and every `isNodeAfter` oracle, the navigation code + counters
-cache print for each node exactly the list XSLT 1.0 §7.7 defines for it.  (After the `from` fix
-`proposed/C17-from-handling.diff`; before it the code deviated for `from`, see design/C17.md.) -/
-theorem number_spec_partial (d : Doc) (hwf : d.WF) (hcl : d.Closed) (c : NumCfg) (hcons : CountConsistent c)
+/-- with the flag read from the current source -/
+def printedSpec (d : Doc) (c : NumCfg) (n : Nat) : List Nat := printedSpecZ anyZeroPrintsNothing d c n
+
+/-- one instruction over a history, for either form of the zero guard -/
+def runNumberZ (z : Bool) (d : Doc) (c : NumCfg) (after : Nat → Nat → Bool) : List Counter → List Nat → List (List Nat)
+  | _, [] => []
+  | cs, n :: rest =>
+    let r := getCountListZ z d c after cs n
+    r.2 :: runNumberZ z d c after r.1 rest
+
+theorem runNumber_eq (d : Doc) (c : NumCfg) (after : Nat → Nat → Bool) : ∀ (h : List Nat) (cs : List Counter),
+    runNumber d c after cs h = runNumberZ anyZeroPrintsNothing d c after cs h := by
+  intro h
+  induction h with
+  | nil => intro _; rfl
+  | cons n rest ih => intro cs; simp only [runNumber, runNumberZ, getCountList, ih]
+
+/-- **number_spec**, for either form of the zero guard: for every well-formed document, every instruction — any
+level, any `count` (explicit or default), with or without `from` — every history of context nodes and every
+`isNodeAfter` oracle, the navigation code + counters cache print for each node exactly `printedSpecZ`. -/
+theorem number_spec_general (z : Bool) (d : Doc) (hwf : d.WF) (hcl : d.Closed) (c : NumCfg) (hcons : CountConsistent c)
     (after : Nat → Nat → Bool) (history : List Nat) (hh : ∀ n ∈ history, n < d.size) :
-    runNumber d c after [] history = history.map (printedSpec d c) := by
+    runNumberZ z d c after [] history = history.map (printedSpecZ z d c) := by
   suffices H : ∀ (hist : List Nat) (cs : List Counter), (∀ n ∈ hist, n < d.size) →
       CountersInv (getPreviousNode d c) cs →
-      runNumber d c after cs hist = hist.map (printedSpec d c) from
+      runNumberZ z d c after cs hist = hist.map (printedSpecZ z d c) from
     H history [] hh (fun _ h => by simp at h)
   intro hist
   induction hist with
@@ -111,15 +129,35 @@ theorem number_spec_partial (d : Doc) (hwf : d.WF) (hcl : d.Closed) (c : NumCfg)
   | cons n rest ih =>
     intro cs hh hinv
     have hn := hh n (by simp)
-    have hstep : (getCountList d c after cs n).2 = printedSpec d c n ∧
-        CountersInv (getPreviousNode d c) (getCountList d c after cs n).1 := by
-      unfold printedSpec
+    have hstep : (getCountListZ z d c after cs n).2 = printedSpecZ z d c n ∧
+        CountersInv (getPreviousNode d c) (getCountListZ z d c after cs n).1 := by
+      unfold printedSpecZ
       cases hl : c.level with
-      | any => simpa [numberSpec] using getCountList_any hwf hcl c hl hcons n hn after cs hinv
-      | single => simpa [numberSpec] using getCountList_single hwf hcl c hl hcons n hn after cs hinv
-      | multiple => simpa [numberSpec] using getCountList_multiple hwf hcl c hl hcons n hn after cs hinv
-    simp only [runNumber, List.map_cons, hstep.1]
+      | any => simpa [numberSpec] using getCountListZ_any hwf hcl c hl hcons n hn after cs hinv z
+      | single => simpa [numberSpec] using getCountListZ_single hwf hcl c hl hcons n hn after cs hinv z
+      | multiple => simpa [numberSpec] using getCountListZ_multiple hwf hcl c hl hcons n hn after cs hinv z
+    simp only [runNumberZ, List.map_cons, hstep.1]
     rw [ih _ (fun m hm => hh m (by simp [hm])) hstep.2]
+
+/-- **number_spec** for the current source (`_partial` only by the zero list of `level="any"` while the guard
+`if (theNumber != 0)` is in the code — see `printedSpecZ`, `number_spec_full`). -/
+theorem number_spec_partial (d : Doc) (hwf : d.WF) (hcl : d.Closed) (c : NumCfg) (hcons : CountConsistent c)
+    (after : Nat → Nat → Bool) (history : List Nat) (hh : ∀ n ∈ history, n < d.size) :
+    runNumber d c after [] history = history.map (printedSpec d c) := by
+  rw [runNumber_eq]
+  exact number_spec_general anyZeroPrintsNothing d hwf hcl c hcons after history hh
+
+/-- **number_spec at full strength**: once the guard is gone (`anyZeroPrintsNothing = false`, i.e. after
+`proposed/C17-any-zero.diff`) every level prints exactly the XSLT 1.0 §7.7 list. -/
+theorem number_spec_full (hz : anyZeroPrintsNothing = false) (d : Doc) (hwf : d.WF) (hcl : d.Closed) (c : NumCfg)
+    (hcons : CountConsistent c) (after : Nat → Nat → Bool) (history : List Nat) (hh : ∀ n ∈ history, n < d.size) :
+    runNumber d c after [] history = history.map fun n => numberSpec d c.level (c.countAt n) c.fromP n := by
+  rw [number_spec_partial d hwf hcl c hcons after history hh]
+  apply List.map_congr_left
+  intro n _
+  unfold printedSpec printedSpecZ
+  rw [hz]
+  cases c.level <;> rfl
 
 /-- `level="single"` and `level="multiple"`: full strength, the printed list *is* the §7.7 list -/
 theorem number_spec_single_multiple (d : Doc) (hwf : d.WF) (hcl : d.Closed) (c : NumCfg) (hl : c.level ≠ .any)
@@ -128,7 +166,7 @@ theorem number_spec_single_multiple (d : Doc) (hwf : d.WF) (hcl : d.Closed) (c :
   rw [number_spec_partial d hwf hcl c hcons after history hh]
   apply List.map_congr_left
   intro n _
-  unfold printedSpec
+  unfold printedSpec printedSpecZ
   cases hlv : c.level with
   | any => exact absurd hlv hl
   | single => rfl
@@ -148,8 +186,9 @@ with repeats: the x at 6 is the first x after the h at 5 -/
 example :
     let c : NumCfg := { level := .any, countAt := fun _ n => isX n, fromP := some isH }
     CountConsistent c ∧ (∀ n ∈ [7, 3, 6, 1, 7, 4, 5], n < exDoc.size) ∧
-    runNumber exDoc c (fun a b => decide (a ≤ b)) [] [7, 3, 6, 1, 7, 4, 5] = [[2], [1], [1], [], [2], [2], [2]] := by
-  refine ⟨fun _ _ _ => rfl, by decide, by decide +kernel⟩
+    runNumberZ true exDoc c (fun a b => decide (a ≤ b)) [] [7, 3, 6, 1, 7, 4, 5] = [[2], [1], [1], [], [2], [2], [2]] ∧
+    runNumberZ false exDoc c (fun a b => decide (a ≤ b)) [] [7, 3, 6, 1] = [[2], [1], [1], [0]] := by
+  refine ⟨fun _ _ _ => rfl, by decide, by decide +kernel, by decide +kernel⟩
 
 /-- non-vacuity: `level="multiple" count="x|r" from="r"`-like instruction (`from` = node 1, itself visited) and
 `level="single"` with `from` = node 6 at node 7 -/
@@ -157,17 +196,18 @@ example :
     let cm : NumCfg := { level := .multiple, countAt := fun _ n => isX n || n == 1, fromP := some (fun n => n == 1) }
     let cs : NumCfg := { level := .single, countAt := fun _ n => n == 1, fromP := some (fun n => n == 6) }
     CountConsistent cm ∧ CountConsistent cs ∧
-    runNumber exDoc cm (fun a b => decide (a ≤ b)) [] [7, 1, 6] = [[3, 1], [1], [3]] ∧
-    runNumber exDoc cs (fun a b => decide (a ≤ b)) [] [7, 6] = [[], [1]] := by
+    runNumberZ true exDoc cm (fun a b => decide (a ≤ b)) [] [7, 1, 6] = [[3, 1], [1], [3]] ∧
+    runNumberZ true exDoc cs (fun a b => decide (a ≤ b)) [] [7, 6] = [[], [1]] := by
   refine ⟨fun _ _ _ => rfl, fun _ _ _ => rfl, by decide +kernel, by decide +kernel⟩
 
-/-- a zero count: `level="any" count="x"` at node 2 prints nothing; §7.7 (1.0 text) constructs the list `[0]`.
-(known finding C17-any-zero) -/
+/-- a zero count: `level="any" count="x"` at node 2: with the guard `if (theNumber != 0)` nothing is printed, without
+it the list `[0]`; §7.7 (1.0 text) constructs `[0]`.  (known finding C17-any-zero while the guard is in the code) -/
 theorem number_spec_any_zero_counterexample :
     let c : NumCfg := { level := .any, countAt := fun _ n => isX n, fromP := none }
-    (getCountList exDoc c (fun a b => decide (a ≤ b)) [] 2).2 = [] ∧
+    (getCountListZ true exDoc c (fun a b => decide (a ≤ b)) [] 2).2 = [] ∧
+    (getCountListZ false exDoc c (fun a b => decide (a ≤ b)) [] 2).2 = [0] ∧
     numberSpec exDoc .any (c.countAt 2) c.fromP 2 = [0] := by
-  exact ⟨by decide +kernel, by decide +kernel⟩
+  exact ⟨by decide +kernel, by decide +kernel, by decide +kernel⟩
 
 /-! ## Alphabetic numbering -/
 
@@ -266,13 +306,14 @@ theorem formatList_roundtrip_3999 (alnum : Nat → Bool) (ha : AlnumOK alnum) (f
 neither a letter/digit nor `.` nor NUL and does not occur in the format string, any group size ≥ 1.  `decodeList`
 reads a letter/digit run *including* grouping separators as one number. -/
 theorem formatList_grouping_roundtrip (alnum : Nat → Bool) (ha : AlnumOK alnum) (g : Grouping) (sc : Nat)
-    (hu : g.used = true) (hz : g.size ≠ 0) (hs : g.sep = [sc]) (hpsc : alnum sc = false) (hdot : sc ≠ 46) (h0 : sc ≠ 0)
+    (hu : g.used = true) (hz : g.size ≠ 0) (hs : g.sep = [sc]) (hraw : g.rawSepLen ≤ 1) (hpsc : alnum sc = false)
+    (hdot : sc ≠ 46) (h0 : sc ≠ 0)
     (fmt : Str) (hfmt : sc ∉ fmt) (l : List Nat) (hl : l ≠ [])
     (hr : ∀ i, i < l.length →
       NumFits ((numberTypes alnum fmt).getD i ((numberTypes alnum fmt).getLastD 49)) (l.getD i 0))
     (ht : ∀ t ∈ numberTypes alnum fmt, TypeOK t) :
     ∃ out, formatNumberList alnum g fmt l = some out ∧ decodeList alnum g fmt out = some l :=
-  formatList_roundtrip_grouping_real alnum ha g sc hu hz hs hpsc hdot h0 fmt hfmt l hl hr ht
+  formatList_roundtrip_grouping_real alnum ha g sc hu hz hs hraw hpsc hdot h0 fmt hfmt l hl hr ht
 
 example :
     let alnum : Nat → Bool := fun c => (48 ≤ c && c ≤ 57) || (65 ≤ c && c ≤ 90) || (97 ≤ c && c ≤ 122)
